@@ -4,7 +4,7 @@
    Model: Sim/Model.v (transcription of hydro_lang/src/sim/runtime.rs hooks and
    compiled.rs run_hooks).  All statements quantify over ALL queues and ALL decision scripts. *)
 From Coq Require Import List Arith Bool NArith Permutation Sorted.
-From HV Require Import Sim.Model Sim.PHooks Sim.PTick.
+From HV Require Import Sim.Model Sim.PHooks Sim.PTick Sim.ModelTop Sim.PTop.
 Import ListNotations.
 Close Scope N_scope.
 
@@ -110,6 +110,46 @@ Theorem C36_can_run_iff : forall hs,
 Proof. exact can_run_iff. Qed.
 Print Assumptions C36_can_run_iff.
 
+(* ---- top-level (observation) hooks and inline (ObserveNonDet) hooks, unkeyed kinds ---- *)
+
+(* TopLevelStreamOrderHook: at most one item, taken from anywhere, the rest keeps its order;
+   a picked observation (forced) releases exactly that one item *)
+Theorem C36_top_order_sound : forall (A : Type) force (q : list A) ds rel rem rest nt,
+  decide_top_order force q ds = Ok (rel, rem, rest, nt) ->
+  Merge rel rem q /\ length rel <= 1 /\ nt = negb (is_nil rel)
+  /\ (force = true -> q <> [] -> rel <> []).
+Proof. intros A. exact (@top_order_sound A). Qed.
+Print Assumptions C36_top_order_sound.
+
+(* TopLevelFoldHook: the batch handed to the fold is a permutation of a NON-EMPTY
+   sub-sequence of the buffer; what is not selected stays, in order *)
+Theorem C36_top_fold_sound : forall (A : Type) force (q : list A) ds out rem rest nt,
+  decide_top_fold force q ds = Ok (out, rem, rest, nt) -> q <> [] ->
+  exists sel, Merge sel rem q /\ Permutation out sel /\ sel <> [] /\ nt = true.
+Proof. intros A. exact (@top_fold_sound A). Qed.
+Print Assumptions C36_top_fold_sound.
+
+(* TopLevelMergeOrderedHook: nothing, or the front of one of the two inputs *)
+Theorem C36_top_merge_sound : forall (A : Type) force (q1 q2 : list A) ds rel r1 r2 rest nt,
+  decide_top_merge force q1 q2 ds = Ok (rel, r1, r2, rest, nt) ->
+  ((rel = [] /\ r1 = q1 /\ r2 = q2 /\ nt = false /\ (force = true -> q1 = [] /\ q2 = []))
+   \/ (exists x, rel = [x] /\ q1 = x :: r1 /\ r2 = q2 /\ nt = true)
+   \/ (exists x, rel = [x] /\ q2 = x :: r2 /\ r1 = q1 /\ nt = true)).
+Proof. intros A. exact (@top_merge_sound A). Qed.
+Print Assumptions C36_top_merge_sound.
+
+(* inline StreamOrderHook: the observed order is a permutation of the batch;
+   inline MergeOrderedHook: an interleaving preserving the order of both inputs *)
+Theorem C36_inline_shuffle_perm : forall (A : Type) (l : list A) ds out rest,
+  decide_shuffle l ds = Ok (out, rest) -> Permutation out l.
+Proof. intros A. exact (@shuffle_perm A). Qed.
+Print Assumptions C36_inline_shuffle_perm.
+
+Theorem C36_inline_merge_interleaves : forall (A : Type) (a b : list A) ds out rest,
+  decide_merge a b ds = Ok (out, rest) -> Merge a b out.
+Proof. intros A. exact (@merge_interleaves A). Qed.
+Print Assumptions C36_inline_merge_interleaves.
+
 (* non-vacuity: the hypotheses are satisfiable by non-trivial values *)
 Example C36_ex_noorder :
   decide_noorder false [10; 20; 30] [0; 1; 0; 1] = Ok ([20; 30], [10], [], true).
@@ -151,3 +191,10 @@ Example C36_manual_trivial_decision :
   hook_can_release (HStreamT [10]%N (Some [])) = true
   /\ run_hooks [HStreamT [10]%N (Some [])] [] = Ok ([HStreamT [10]%N None], [([], false)], []).
 Proof. split; reflexivity. Qed.
+
+Example C36_ex_top_fold :
+  decide_top_fold true [10; 20; 30] [1; 0; 1; 0] = Ok ([30; 10], [20], [], true).
+Proof. reflexivity. Qed.
+Example C36_ex_shuffle :
+  decide_shuffle [1; 2; 3] [2; 1] = Ok ([3; 2; 1], []).
+Proof. reflexivity. Qed.
